@@ -123,7 +123,12 @@ def p1_case(part, row, case):
             cc = dict(case, sizes=[list(size)], route=route)
             tag = "%s:%s%s" % (route, "rotated-frame" if rotated else "standard-frame", ":partial-occupancy" if occ is not None else ":misleading-labels" if labels else ":deposited-cif" if case.get("provenance") else "")
             try:
-                cfresh = xtal.fresh_from_state(xtal.public_state(c))
+                if case.get("provenance"):
+                    import copy
+
+                    cfresh = copy.deepcopy(c)          # the crystal AS READ from the file (with whatever it carries along), not a rebuilt one
+                else:
+                    cfresh = xtal.fresh_from_state(xtal.public_state(c))
                 p = cfresh.as_P1_supercell(size) if route == "as_P1_supercell" else cfresh.to_translational_symmetry(supercell=size)
             except Exception as e:
                 part.fail("raise:%s" % tag, "%s%s raised %r in %s" % (route, size, e, sk), cc)
@@ -151,6 +156,22 @@ def p1_case(part, row, case):
                 Xc = (X[0], X[1], M0)
                 Yc = (Y[0], Y[1], np.diag(np.array(size, dtype=float)) @ M0)
                 same_arrangement(part, Xc, Yc, "arrangement:%s" % tag, "%s%s of %s given by rotated lattice vectors" % (route, size, sk), cc)
+            if case.get("provenance") == "deposited-cif" and route == "as_P1_supercell":
+                # the expanded crystal written as CIF / .res and read again is still that arrangement (whatever the parent carried
+                # along from its own source file must not leak into the child's export)
+                from chmpy.crystal import Crystal as _C2
+
+                for fmt_ in ("cif", "res"):
+                    part.tr()
+                    try:
+                        q = _C2.from_cif_string(p.to_cif_string()) if fmt_ == "cif" else _C2.from_shelx_string(p.to_shelx_string())
+                        Z_ = arrangement(q)
+                        if len(Z_[0]) != len(Y[0]):
+                            part.fail("export-of-expansion:%s:%s" % (fmt_, tag), "%s%s of %s written as %s and read again holds %d atoms instead of %d" % (route, size, sk, fmt_, len(Z_[0]), len(Y[0])), cc)
+                        else:
+                            same_arrangement(part, Y, Z_, "export-of-expansion:%s:%s" % (fmt_, tag), "%s%s of %s written as %s and read again" % (route, size, sk, fmt_), cc, tol=1e-5)
+                    except Exception as e:
+                        part.fail("export-of-expansion-raise:%s:%s" % (fmt_, tag), "%s%s of %s (parent read from a CIF): writing / re-reading as %s raised %s: %s" % (route, size, sk, fmt_, type(e).__name__, str(e)[:80]), cc)
             d2 = float(p.density)
             part.dev("density_rel", abs(d2 - dens) / dens)
             if not (abs(d2 - dens) <= 1e-9 * dens):
